@@ -32,6 +32,19 @@ type wireJournal struct {
 	keys    []int
 	members []string
 	syncs   chan struct{}
+	standby bool // SyncGroup answers ok with an EMPTY member assignment; the 2nd heartbeat answers 27
+	hbs     int
+	joins   int
+	events  chan string
+}
+
+func (j *wireJournal) signal(e string) {
+	if j.events != nil {
+		select {
+		case j.events <- e:
+		default:
+		}
+	}
 }
 
 func (j *wireJournal) serve(c net.Conn) {
@@ -61,20 +74,37 @@ func (j *wireJournal) serve(c net.Conn) {
 		case *joingroup.Request:
 			j.mu.Lock()
 			j.members = append(j.members, "join:"+m.MemberID)
+			j.joins++
+			nj := j.joins
 			j.mu.Unlock()
+			if nj >= 2 {
+				j.signal("rejoin")
+			}
 			res = &joingroup.Response{GenerationID: 1, ProtocolName: "range", LeaderID: "member-0", MemberID: "member-1"}
 		case *syncgroup.Request:
 			j.mu.Lock()
 			j.members = append(j.members, "sync:"+m.MemberID)
 			j.mu.Unlock()
-			res = &syncgroup.Response{ErrorCode: 27}
+			if j.standby {
+				res = &syncgroup.Response{Assignments: []byte{}} // no partition for this member
+			} else {
+				res = &syncgroup.Response{ErrorCode: 27}
+			}
 		case *leavegroup.Request:
 			j.mu.Lock()
 			j.members = append(j.members, "leave:"+m.MemberID)
 			j.mu.Unlock()
 			res = &leavegroup.Response{}
 		case *heartbeat.Request:
-			res = &heartbeat.Response{}
+			j.mu.Lock()
+			j.hbs++
+			n := j.hbs
+			j.mu.Unlock()
+			if j.standby && n == 2 {
+				res = &heartbeat.Response{ErrorCode: 27} // the rebalance signal
+			} else {
+				res = &heartbeat.Response{}
+			}
 		case *offsetfetch.Request:
 			res = &offsetfetch.Response{}
 		default:
@@ -95,6 +125,82 @@ func (j *wireJournal) serve(c net.Conn) {
 func runWireF5() {
 	family = "wire"
 	runSeeded(0, func(*rand.Rand) { wireCase() })
+	runSeeded(0, func(*rand.Rand) { wireStandby() })
+}
+
+// A stand-by member at wire level: SyncGroup hands it no partition.  It must heartbeat all the
+// same; the second heartbeat is answered RebalanceInProgress, which must end the generation and
+// make the member re-join; Close then leaves the group.
+func wireStandby() {
+	j := &wireJournal{syncs: make(chan struct{}, 4), standby: true, events: make(chan string, 16)}
+	dialer := &kafka.Dialer{
+		Timeout: 2 * time.Second,
+		DialFunc: func(ctx context.Context, network, address string) (net.Conn, error) {
+			a, b := net.Pipe()
+			go j.serve(b)
+			return a, nil
+		},
+	}
+	cg, err := kafka.NewConsumerGroup(kafka.ConsumerGroupConfig{
+		ID: "grp", Brokers: []string{"bootstrap.test:9092"}, Topics: []string{"t0"}, Dialer: dialer,
+		HeartbeatInterval: 5 * time.Millisecond, JoinGroupBackoff: 5 * time.Millisecond, Timeout: 2 * time.Second,
+		SessionTimeout: time.Second, RebalanceTimeout: time.Second,
+	})
+	if err != nil {
+		emit("wire", "standby", "NEWFAIL:"+err.Error(), "wire")
+		return
+	}
+	res := "standby"
+	feats := "wire,assign-empty"
+	type nr struct {
+		g   *kafka.Generation
+		err error
+	}
+	nch := make(chan nr, 1)
+	go func() { g, err := cg.Next(context.Background()); nch <- nr{g, err} }()
+	started := false
+	select {
+	case r := <-nch:
+		if r.err != nil {
+			res += " nexterr=" + errClassOf(r.err)
+		} else if st := r.g.VerifState(); st.Closed || st.Routines >= 1 {
+			started = true
+		}
+	case <-time.After(watchdog):
+		res = "HANG:Next " + res
+		noteHang("wire: Next (stand-by)")
+	}
+	res += " started=" + b01(started)
+	rejoin := false
+	if started {
+		select {
+		case <-j.events:
+			rejoin = true
+		case <-time.After(watchdog):
+			res = "HANG:no re-join after a heartbeat answered RebalanceInProgress " + res
+			noteHang("wire: re-join (stand-by)")
+		}
+	} else {
+		feats += ",published-without-heartbeat"
+	}
+	closed := make(chan struct{})
+	go func() { cg.Close(); close(closed) }()
+	select {
+	case <-closed:
+	case <-time.After(watchdog):
+		res = "HANG:Close " + res
+		noteHang("wire: Close (stand-by)")
+	}
+	j.mu.Lock()
+	defer j.mu.Unlock()
+	left := 0
+	for _, m := range j.members {
+		if m == "leave:member-1" {
+			left = 1
+		}
+	}
+	res += fmt.Sprintf(" hb=%s rejoin=%s leave=%d closed=1", b01(j.hbs >= 2), b01(rejoin), left)
+	emit("wire", "standby", res, feats+fmt.Sprintf(",heartbeats=%d", min(j.hbs, 3)))
 }
 
 func wireCase() {
